@@ -57,10 +57,12 @@ static void key_destroy(void *k) {
 }
 static void val_destroy(void *v) {
     struct val_obj *o = v;
-    o->destroyed++;
+    if (o) {
+        o->destroyed++;
+    }
     nvd_total++;
     if (n_call_dv < MAXCALL) {
-        call_dv[n_call_dv++] = o->id;
+        call_dv[n_call_dv++] = o ? o->id : 0;
     }
 }
 
